@@ -263,3 +263,26 @@ Proof. intros [|]; cbn; auto. Qed.
 
 Lemma unguarded_site_leaks : caller_decode false false = Some UnicodeErr /\ allowed UnicodeErr = false.
 Proof. split; reflexivity. Qed.
+
+(* ---- nothing the transport thread clears is dereferenced on the caller's thread ------------- *)
+
+Lemma clears_ok : clears_disjoint thread_clears caller_derefs = true.
+Proof. vm_compute. reflexivity. Qed.
+
+Lemma mem_name_in : forall a l, In a l -> mem_name a l = true.
+Proof.
+  intros a l Hin. unfold mem_name. apply existsb_exists. exists a. split; [exact Hin|].
+  apply zlist_eqb_eq. reflexivity.
+Qed.
+
+Lemma cleared_not_dereferenced :
+  forall a, In a caller_derefs -> caller_deref (mem_name a thread_clears) = None.
+Proof.
+  intros a Hd. destruct (mem_name a thread_clears) eqn:E; [|reflexivity]. exfalso.
+  unfold mem_name in E. apply existsb_exists in E as [b [Hb Heq]]. apply zlist_eqb_eq in Heq. subst b.
+  pose proof clears_ok as H. unfold clears_disjoint in H. rewrite forallb_forall in H.
+  specialize (H a Hb). rewrite (mem_name_in a caller_derefs Hd) in H. discriminate H.
+Qed.
+
+Lemma cleared_deref_leaks : caller_deref true = Some AttrErr /\ allowed AttrErr = false.
+Proof. split; reflexivity. Qed.
